@@ -341,6 +341,33 @@ def check_line_breaks(ctx, f: FuncInfo, rule="ORD-br"):
   leave the loop in front of the Br."""
   from . import fineval
   ctx.unit(f.module)
+  # first by interpretation on a sample text (any loop form); the handler must then be in the interpreted subset
+  if f.cls is not None and len(f.params) == 2 and f.name == "handle_data":
+    from ..consteval import NotConst as _NC, Raised as _R
+    from .minieval import MiniEval, Node
+    try:
+      got, want = [], []
+      for text in ("one\ntwo\n\nfour\n", "a\x0bb\u2028c\rd"):
+        para = Node("P", "paragraph", (), doc="doc")
+        selfn = Node("Parser", "parser", (), parent=para, line_num=1)
+        MiniEval(ctx.ix).call(f, [selfn, text])
+        got.append([(c_.kind, [(g_.kind, g_.fields.get("text")) for g_ in c_.children]) for c_ in para.children])
+        exp = []
+        for k, ln in enumerate(text.split("\n")):
+          if k:
+            exp.append(("Br", []))
+          exp.append(("Span", [("Text", ln)]))
+        want.append(exp)
+      ctx.check(got == want, rule, f"{f.qualname}|a line break precedes every line but the first", ctx.where(f.module, f.node),
+                "interpreted on two sample texts: one span per line (empty and trailing ones too), a line break between consecutive lines, lines end at LF only",
+                f"interpreted on the texts 'one\\ntwo\\n\\nfour\\n' and 'a\\x0bb\\u2028c\\rd', the handler builds {got}; expected one span per LF-separated line "
+                f"(the empty ones too) with a line break between consecutive lines, and no break at other characters")
+      return
+    except _R:
+      ctx.bad(rule, f"{f.qualname}|a line break precedes every line but the first", ctx.where(f.module, f.node), "interpreted on a four-line text, the handler raises")
+      return
+    except _NC:
+      pass
   loops = [lp for lp in own_nodes(f.node) if isinstance(lp, ast.For) and not any(isinstance(o, ast.For) and o is not lp and any(x is lp for x in ast.walk(o)) for o in own_nodes(f.node))]
   loops = [lp for lp in loops if any(isinstance(c, ast.Call) and "Br(" in unparse(c) for c in ast.walk(lp))]
   if len(loops) != 1:
